@@ -118,6 +118,11 @@ func genPU(t *rapid.T) puCase {
 	return c
 }
 
+// defined types that satisfy the library's ~string | ~[]byte constraints: results must not depend on whether
+// the caller uses the predeclared type or one of its own.
+type nstr string
+type nbytes []byte
+
 func runPU(c puCase, r *pb.Rec) error {
 	s := string(c.S)
 	in := append([]byte(nil), c.S...)
@@ -132,6 +137,11 @@ func runPU(c puCase, r *pb.Rec) error {
 	}
 	if gotB != got || (gerrB == nil) != (gerr == nil) {
 		return fmt.Errorf("ParseUint differs for string and []byte on %q: %d,%v vs %d,%v", s, got, gerr, gotB, gerrB)
+	}
+	gotN, gerrN := strz.ParseUint(nstr(s), c.Base, c.BitSize)
+	gotNB, gerrNB := strz.ParseUint(nbytes(in), c.Base, c.BitSize)
+	if gotN != got || gotNB != got || (gerrN == nil) != (gerr == nil) || (gerrNB == nil) != (gerr == nil) {
+		return fmt.Errorf("ParseUint differs for defined string/[]byte types on %q: %d,%v / %d,%v vs %d,%v", s, gotN, gerrN, gotNB, gerrNB, got, gerr)
 	}
 	us := bytes.IndexByte(c.S, '_') >= 0
 	r.ClassIf(us, "underscore")
@@ -238,6 +248,9 @@ func runEnc(c encCase, r *pb.Rec) error {
 		if g1, g2, g3, g4 := string(strz.HexEncode(in)), string(strz.HexEncode(s)), strz.HexEncodeToString(in), strz.HexEncodeToString(s); g1 != want || g2 != want || g3 != want || g4 != want {
 			return fmt.Errorf("HexEncode(%x) = %q/%q/%q/%q want %q", c.S, g1, g2, g3, g4, want)
 		}
+		if g1, g2, g3, g4 := string(strz.HexEncode(nbytes(in))), string(strz.HexEncode(nstr(s))), strz.HexEncodeToString(nbytes(in)), strz.HexEncodeToString(nstr(s)); g1 != want || g2 != want || g3 != want || g4 != want {
+			return fmt.Errorf("HexEncode(%x) with defined string/[]byte types = %q/%q/%q/%q want %q", c.S, g1, g2, g3, g4, want)
+		}
 	case "hexdec":
 		dst := make([]byte, hex.DecodedLen(len(c.S)))
 		n, werr := hex.Decode(dst, c.S)
@@ -246,13 +259,15 @@ func runEnc(c encCase, r *pb.Rec) error {
 		g2, e2 := strz.HexDecode(s)
 		g3, e3 := strz.HexDecodeToString(in)
 		g4, e4 := strz.HexDecodeToString(s)
+		g5, e5 := strz.HexDecode(nstr(s))
+		g6, e6 := strz.HexDecodeToString(nbytes(in))
 		// results handed out (also the decoded prefix returned with an error) must survive later calls
 		strz.HexDecode("00112233445566778899aabbccddeeff")
 		strz.HexDecodeToString("ffeeddccbbaa99887766554433221100zz")
 		for i, x := range []struct {
 			b []byte
 			e error
-		}{{g1, e1}, {g2, e2}, {[]byte(g3), e3}, {[]byte(g4), e4}} {
+		}{{g1, e1}, {g2, e2}, {[]byte(g3), e3}, {[]byte(g4), e4}, {g5, e5}, {[]byte(g6), e6}} {
 			if !bytes.Equal(x.b, want) || errText(x.e) != errText(werr) {
 				return fmt.Errorf("HexDecode variant %d (%q) = %x, %v; encoding/hex: %x, %v", i, c.S, x.b, x.e, want, werr)
 			}
@@ -275,6 +290,9 @@ func runEnc(c encCase, r *pb.Rec) error {
 		if g1, g2, g3, g4 := string(strz.Base64Encode(in, enc)), string(strz.Base64Encode(s, enc)), strz.Base64EncodeToString(in, enc), strz.Base64EncodeToString(s, enc); g1 != want || g2 != want || g3 != want || g4 != want {
 			return fmt.Errorf("Base64Encode(%x) = %q/%q/%q/%q want %q", c.S, g1, g2, g3, g4, want)
 		}
+		if g1, g2, g3, g4 := string(strz.Base64Encode(nbytes(in), enc)), string(strz.Base64Encode(nstr(s), enc)), strz.Base64EncodeToString(nbytes(in), enc), strz.Base64EncodeToString(nstr(s), enc); g1 != want || g2 != want || g3 != want || g4 != want {
+			return fmt.Errorf("Base64Encode(%x) with defined string/[]byte types = %q/%q/%q/%q want %q", c.S, g1, g2, g3, g4, want)
+		}
 	case "b64dec":
 		enc := b64encs[c.Enc]
 		want, werr := enc.DecodeString(s)
@@ -282,6 +300,8 @@ func runEnc(c encCase, r *pb.Rec) error {
 		g2, e2 := strz.Base64Decode(s, enc)
 		g3, e3 := strz.Base64DecodeToString(in, enc)
 		g4, e4 := strz.Base64DecodeToString(s, enc)
+		g5, e5 := strz.Base64Decode(nstr(s), enc)
+		g6, e6 := strz.Base64DecodeToString(nbytes(in), enc)
 		// results handed out (also the decoded prefix returned with an error) must survive later calls
 		for _, e := range b64encs {
 			strz.Base64Decode("QUJDREVGR0hJSktMTU5PUFFSU1RVVldYWVo", e)
@@ -290,7 +310,7 @@ func runEnc(c encCase, r *pb.Rec) error {
 		for i, x := range []struct {
 			b []byte
 			e error
-		}{{g1, e1}, {g2, e2}, {[]byte(g3), e3}, {[]byte(g4), e4}} {
+		}{{g1, e1}, {g2, e2}, {[]byte(g3), e3}, {[]byte(g4), e4}, {g5, e5}, {[]byte(g6), e6}} {
 			if !bytes.Equal(x.b, want) || errText(x.e) != errText(werr) {
 				return fmt.Errorf("Base64Decode variant %d enc %d (%q) = %x, %v; encoding/base64: %x, %v", i, c.Enc, c.S, x.b, x.e, want, werr)
 			}
@@ -392,8 +412,22 @@ func runDig(c digCase, r *pb.Rec) error {
 	if string(held) != heldCopy {
 		return fmt.Errorf("the slice returned by Sha256 changed after later calls")
 	}
+	ns, nb := nstr(s), nbytes(in)
+	namedForms := map[string][4]string{
+		"md5":        {string(hashz.Md5(ns)), string(hashz.Md5(nb)), hashz.Md5ToString(ns), hashz.Md5ToString(nb)},
+		"sha1":       {string(hashz.Sha1(ns)), string(hashz.Sha1(nb)), hashz.Sha1ToString(ns), hashz.Sha1ToString(nb)},
+		"sha224":     {string(hashz.Sha224(ns)), string(hashz.Sha224(nb)), hashz.Sha224ToString(ns), hashz.Sha224ToString(nb)},
+		"sha256":     {string(hashz.Sha256(ns)), string(hashz.Sha256(nb)), hashz.Sha256ToString(ns), hashz.Sha256ToString(nb)},
+		"sha384":     {string(hashz.Sha384(ns)), string(hashz.Sha384(nb)), hashz.Sha384ToString(ns), hashz.Sha384ToString(nb)},
+		"sha512":     {string(hashz.Sha512(ns)), string(hashz.Sha512(nb)), hashz.Sha512ToString(ns), hashz.Sha512ToString(nb)},
+		"sha512_224": {string(hashz.Sha512_224(ns)), string(hashz.Sha512_224(nb)), hashz.Sha512_224ToString(ns), hashz.Sha512_224ToString(nb)},
+		"sha512_256": {string(hashz.Sha512_256(ns)), string(hashz.Sha512_256(nb)), hashz.Sha512_256ToString(ns), hashz.Sha512_256ToString(nb)},
+	}
 	for _, o := range all {
 		w := h(o.want)
+		if nf := namedForms[o.name]; nf[0] != w || nf[1] != w || nf[2] != w || nf[3] != w {
+			return fmt.Errorf("%s(%x) called with defined string/[]byte types: %q want %q", o.name, c.Data, nf, w)
+		}
 		if string(o.gotB) != w || string(o.gotS) != w || o.strB != w || o.strS != w {
 			return fmt.Errorf("%s(%x): %q %q %q %q want %q", o.name, c.Data, o.gotB, o.gotS, o.strB, o.strS, w)
 		}
@@ -416,6 +450,9 @@ func runDig(c digCase, r *pb.Rec) error {
 		key := append([]byte(nil), c.Key...)
 		if a, b, cc, d := string(hashz.Hmac(key, in, hf)), string(hashz.Hmac(string(c.Key), s, hf)), hashz.HmacToString(key, s, hf), hashz.HmacToString(string(c.Key), in, hf); a != w || b != w || cc != w || d != w {
 			return fmt.Errorf("Hmac #%d key %x data %x: %q %q %q %q want %q", i, c.Key, c.Data, a, b, cc, d, w)
+		}
+		if a, b := string(hashz.Hmac(nbytes(key), ns, hf)), hashz.HmacToString(nstr(c.Key), nb, hf); a != w || b != w {
+			return fmt.Errorf("Hmac #%d key %x data %x with defined string/[]byte types: %q %q want %q", i, c.Key, c.Data, a, b, w)
 		}
 		if !bytes.Equal(key, c.Key) {
 			return fmt.Errorf("Hmac modified its key")
